@@ -1,3 +1,50 @@
-From ZV Require Import Lib.Base Model.Ctags.
-Theorem placeholder : True. Proof. exact I. Qed.
-Print Assumptions placeholder.
+(** C37 — Symbol ranges derived from ctags are always valid.
+    Model: Model/Ctags.v (tagsToSections.Convert, overlaps, newLinesIndices; ShardBuilder.Add's section test).
+    Offsets are nat (Go: uint32); the statements are about |content| < 2^32, which Builder guarantees (SizeMax). *)
+From ZV Require Import Lib.Base Model.Ctags Proofs.Ctags.
+
+(** For every content and every entry list: the derived sections are sorted and pairwise non-overlapping
+    (every earlier section ends before every later one starts). *)
+Theorem C37_sorted_nonoverlapping : forall content tags,
+  ForallOrdPairs (fun a b => s_end a <= s_start b) (map fst (convert content tags)).
+Proof. exact convert_ordered. Qed.
+Print Assumptions C37_sorted_nonoverlapping.
+
+(** Each derived section lies inside the file, covers exactly the symbol's name, lies on the line the entry
+    reports (between that line's start and its terminating newline / end of file) and contains no newline. *)
+Theorem C37_inside_and_covers_name : forall content tags s t,
+  In (s, t) (convert content tags) ->
+  s_start s <= s_end s <= length content /\
+  slice content (s_start s) (s_end s) = e_name t /\
+  In t tags /\
+  exists lo e, line_bounds (newlines_indices content) (e_line t) = Some (lo, e) /\
+               lo <= s_start s /\ s_end s <= e /\
+               forall p, lo <= p < e -> nth_error content p <> Some 10%N.
+Proof.
+  intros content tags s t Hin.
+  pose proof (convert_rows content tags) as Hr. rewrite Forall_forall in Hr.
+  destruct (Hr _ Hin) as (H1 & H2 & H3 & lo & e & Hlb & Hlo & He). cbn [fst snd] in *.
+  split; [lia|]. split; [exact H3|]. split; [exact (convert_sub content tags (s, t) Hin)|].
+  exists lo, e. repeat split; try assumption.
+  intros p Hp. eapply line_bounds_no_nl; eauto.
+Qed.
+Print Assumptions C37_inside_and_covers_name.
+
+(** The shard builder accepts what Convert derives (sort, overlap test, past-the-end test), for every input:
+    entries that cannot be placed are dropped instead of failing the build. *)
+Theorem C37_accepted_by_builder : forall content tags,
+  add_accepts (length content) (map fst (convert content tags)) = true.
+Proof. exact convert_accepted. Qed.
+Print Assumptions C37_accepted_by_builder.
+
+(** Non-vacuity: a concrete input producing three sections, one dropped for overlap, one for a bad line. *)
+Example C37_nonvacuous :
+  let content := [102;111;111;32;98;97;114;10;120;32;102;111;111]%N in   (* "foo bar\nx foo" *)
+  let tags := [ {| e_line := 1; e_name := [98;97;114]%N; e_meta := 0 |};      (* bar  on line 1 *)
+                {| e_line := 1; e_name := [102;111;111]%N; e_meta := 1 |};    (* foo  on line 1 *)
+                {| e_line := 1; e_name := [111;111;32]%N; e_meta := 2 |};     (* "oo " overlaps foo: dropped *)
+                {| e_line := 9; e_name := [120]%N; e_meta := 3 |};            (* bad line: dropped *)
+                {| e_line := 2; e_name := [102;111;111]%N; e_meta := 4 |} ] in (* foo on line 2 *)
+  map (fun p => (s_start (fst p), s_end (fst p), e_meta (snd p))) (convert content tags)
+  = [(0, 3, 1%N); (4, 7, 0%N); (10, 13, 4%N)].
+Proof. vm_compute. reflexivity. Qed.
